@@ -118,7 +118,8 @@ def static_compare(prog: Program, ref: Dict[str, Any], Model, symbols) -> List[s
 # ---------------------------------------------------------------------------
 def equivalence(prog: Program, ref: Dict[str, Any], Model, symbols, *, spelling: str = 'pos', check_text: bool = True,
                 check_reads: bool = True, runner: Optional[Callable] = None, budget_s: float = 60,
-                max_candidates: int = 2, range_from: str = 'reference', ref_runner: Optional[Callable] = None) -> Dict[str, Any]:
+                max_candidates: int = 2, range_from: str = 'reference', ref_runner: Optional[Callable] = None,
+                query_timeout_ms: Optional[int] = None) -> Dict[str, Any]:
     """Explore `_evaluate(t)` on symbolic series against the AST interpreter.
 
     Returns stats, `bad` (list of replay-able discrepancy records).
@@ -126,7 +127,11 @@ def equivalence(prog: Program, ref: Dict[str, Any], Model, symbols, *, spelling:
     runner(model, t): alternative way of running the implementation side (C15 variants).
     """
     install_user_functions()
-    ctx = Ctx(budget_s=budget_s)
+    import vlib as _vlib
+    if _vlib.tier() == 'quick':
+        budget_s = min(budget_s, 25)
+        query_timeout_ms = query_timeout_ms or 10000
+    ctx = Ctx(budget_s=budget_s, timeout_ms=query_timeout_ms or 20000)
     names = list(dict.fromkeys(ref['names'] + list(Model.NAMES)))
     lags, leads = ref['lags'], ref['leads']
     if range_from == 'model':
